@@ -6,7 +6,7 @@
    derivatives of validators outside the bonded set).  Where a clause is still false of the
    faithful model there is a [_refuted] witness (closed, vm_compute) next to the strongest true
    statement. *)
-From Kava Require Import Base.Prelude Base.Dec Model.Staking Model.Tally Model.Liquid Model.TallyTie Proofs.Liquid Proofs.LiquidValue Proofs.Tally.
+From Kava Require Import Base.Prelude Base.Dec Model.Staking Model.Tally Model.Liquid Model.TallyTie Model.LiquidMsg Proofs.Liquid Proofs.LiquidValue Proofs.Tally Proofs.LiquidMsg.
 Local Open Scope Z_scope.
 
 (** A small world used by the witnesses: accounts 0,1 users, 2,3 operators of validators
@@ -476,3 +476,61 @@ Theorem C12_derivative_power_matches_delegation :
   0 <= delegation_power v (dec_of_int h) - dec_of_int (derivative_value v h) <= PREC.
 Proof. exact derivative_power_close. Qed.
 Print Assumptions C12_derivative_power_matches_delegation.
+
+(** ** the message level: the coin's denom is a field of the message, chosen by the sender
+    independently of the validator address (Model/LiquidMsg.v; types/msg.go ValidateBasic accepts
+    any valid positive coin) *)
+
+(* A burn message whose coin is not the derivative of the validator it names — in particular the
+   derivative of ANOTHER existing validator with minted derivatives — is refused and changes
+   nothing (derivative.go BurnDerivative compares amount.Denom with
+   GetLiquidStakingTokenDenom(valAddr)). *)
+Theorem C12_burn_other_denom_refused :
+  forall e s a v dn amt, dn <> DDeriv v ->
+  mstep e s (MBurnMsg a v dn amt) = Err /\ mstep' e s (MBurnMsg a v dn amt) = s.
+Proof.
+  intros e s a v dn amt H. pose proof (burn_msg_other_denom_refused e s a v dn amt H) as E.
+  split; [exact E|]. unfold mstep'. now rewrite E.
+Qed.
+Print Assumptions C12_burn_other_denom_refused.
+
+(* a successful burn message burned the derivative of the validator whose module delegation pays
+   the shares, and is the keeper-level burn of Model/Liquid.v: every theorem above speaks about it *)
+Theorem C12_burn_msg_is_burn_of_named_validator :
+  forall e s a v dn amt s' out,
+  mstep e s (MBurnMsg a v dn amt) = Ok s' out -> dn = DDeriv v /\ step e s (Burn a v amt) = Ok s' out.
+Proof. exact burn_msg_ok_denom. Qed.
+Print Assumptions C12_burn_msg_is_burn_of_named_validator.
+
+(* a mint message paying with anything but the bond denom is refused *)
+Theorem C12_mint_derivative_denom_refused :
+  forall e s a v d amt, mstep e s (MMintMsg a v (DDeriv d) amt) = Err.
+Proof. exact mint_msg_derivative_denom_refused. Qed.
+Print Assumptions C12_mint_derivative_denom_refused.
+
+(* invariant and backing for every history of messages, whatever denoms they name *)
+Theorem C12_backing_all_message_histories :
+  forall e ms s, env_wf e -> Inv e s -> backed_all e s ->
+  Inv e (mrun e s ms) /\ backed_all e (mrun e s ms).
+Proof. intros e ms s Hwf HI HB. split; [now apply mrun_inv|now apply mrun_backed]. Qed.
+Print Assumptions C12_backing_all_message_histories.
+
+(* The comparison is what backing needs: had BurnDerivative accepted the derivative of any existing
+   validator ([burn_loose]), the holder of validator d's derivative naming validator v would leave
+   v's derivative with fewer module shares than supply (closed witness, two validators at rate one,
+   both with minted derivatives), while the model of the code refuses that very message. *)
+Theorem C12_burn_denom_check_needed :
+  exists e s a d v amt s' x,
+    backed_all e s /\ d <> v /\ 0 < dsup s d /\ 0 < dsup s v /\
+    burn_loose e s a d v amt = Ok s' x /\
+    dshares s' (liq e) v < dsup s' v * PREC /\
+    mstep' e s (MBurnMsg a v (DDeriv d) amt) = s.
+Proof. exact loose_burn_breaks_backing. Qed.
+Print Assumptions C12_burn_denom_check_needed.
+
+(* non-vacuity: the same holder redeems against the validator whose derivative it holds *)
+Example C12_burn_msg_nonvacuous :
+  let s := mrun lm_env lm_minted [MBurnMsg 0%nat 1%nat (DDeriv 0%nat) 400000; MBurnMsg 0%nat 0%nat (DDeriv 0%nat) 400000] in
+  dsup s 0%nat = 600000 /\ dsup s 1%nat = 1000000 /\
+  dshares s (liq lm_env) 1%nat = 1000000 * PREC /\ dshares s 0%nat 0%nat = 1400000 * PREC.
+Proof. vm_compute. repeat split; reflexivity. Qed.
